@@ -277,6 +277,20 @@ PROPS['C13'] = dict(
     level_text='Bounded symbolic model checking of the compiled code: the window algebra and the index conversions are decided for every 64-bit index and window (not a sample), which is where the interesting inputs are single points of a 2^64 space (index+1 wrapping to 0). Union/intersection are proved equal to hull/meet-with-empty-normalisation, commutative (reversed call), idempotent (aliased call), associative (two chained real calls each way); equality, accessors, size/interval count and iteration bounds are proved to describe the same window; checked accessors must throw for every index outside.',
     level_note='64-bit indices exact; grid size abstract up to 2^60 where data is not read, <=3 (4) points otherwise; trusted: clang -O1 lowering, irsym executor (differentially validated), stubs, z3.')
 
+_C18_QUICK = ['chk_eval1', 'chk_iszero', 'chk_sfront', 'chk_sback', 'chk_scopy', 'chk_overlap', 'chk_sequal', 'chk_applyX3', 'chk_applyDx1', 'chk_bilin', 'chk_scalarprod', 'chk_linform', 'chk_scale', 'chk_module_scan']
+PROPS['C18'] = dict(
+    engine='B', technique='non-interference by symbolic execution of the compiled IR: every store/atomic/global access of each const operation is logged per path and checked against the ownership of the memory it hits; findings replayed with 4 threads under ThreadSanitizer',
+    irsym=[dict(module='c18', tsan_driver='tsan_driver.cpp', params=dict(quick=dict(nmax=3), thorough=dict(nmax=3)), select=dict(quick=_C18_QUICK, thorough=None)),
+           dict(module='c13', checks=[2, 3], params=dict(quick=dict(nmax_data=3), thorough=dict(nmax_data=3)))],
+    b_timeout_s=dict(quick=900, thorough=3000),
+    bounds=dict(quick='operations on Spline<double,k<=2> (evaluation, isZero, front/back, copy construction + destruction, checkOverlap, ==, scalar multiple, X<3>/Dx<1> application, bilinear form, scalar product, linear form) with windows of every operand and the grid size (2..3) as 64-bit symbolic values, grid points symbolic IEEE doubles, coefficients unconstrained; two-operand operations additionally with the operands on two distinct grid vectors (so Grid::operator== runs its element loop); Support union/intersection/equality as in C13',
+                thorough='adds evaluation on order 2, X<1> application, operator+, operator*(Spline), SplineOperator application (heap allocation, vector growth, memmove, all destructors)'),
+    outside='interleavings are not enumerated (the non-interference theorem is in the trusted base); operations on non-const shared objects (not promised by the library); grids above 3 points; BSplineGenerator::generateBSplines (wrapper exists, not yet explored: path count); the last-owner release of a grid (use_count >= 2 assumed for shared grids)',
+    assumptions=['operands satisfy their class invariants', 'every grid involved is shared (use_count >= 2)', 'atomic read-modify-write on the use count behaves atomically (hardware/compiler)', 'C++11 thread-safe initialisation of function-local statics', 'allocation does not fail; the allocator is thread-safe'],
+    trusted=B_TRUST + ['the non-interference theorem: writes only to thread-private memory or atomic RMW on counters + no non-atomic write to any location another thread reads => data-race freedom and sequentially identical results'],
+    level_text='Bounded symbolic model checking of a sufficient condition: for all inputs within the bound, each operation writes only to its own stack, to heap it allocated on that path or to its result object; the only accesses that modify shared memory are atomic RMWs on shared_ptr use counts (balanced at the end); no mutable global is read or written; results do not depend on the count. Interleavings need not be enumerated because the premise of the non-interference theorem is established for every operation.',
+    level_note='Data-race freedom follows from the per-operation premise by a standard theorem (trusted), not from exploring schedules; bounded to grids <=3 points and orders <=2 (3,4 for results); trusted: clang lowering, irsym executor, stubs, z3.')
+
 _NOT_BUILT = 'check not built yet in this round (planned, see DESIGN.md section 5)'
 NOT_APPLICABLE = {
     'C16': 'floating-point forward-error bound: bit-precise FP or (1+delta) NRA encodings of even the smallest instance return unknown/timeout on every installed solver (DESIGN.md section 7)',
